@@ -57,6 +57,7 @@ type aatFeatureInfo struct {
 	type_       aatLayoutFeatureType
 	setting     aatLayoutFeatureSelector
 	isExclusive bool
+	seq         int // rank of the request: among duplicates the first request wins (for stable sorting only)
 }
 
 func (fi aatFeatureInfo) key() uint32 {
@@ -72,7 +73,7 @@ func (a aatFeatureInfo) isLess(b aatFeatureInfo) bool {
 	if !a.isExclusive && (a.setting&selMask) != (b.setting&selMask) {
 		return a.setting < b.setting
 	}
-	return false
+	return a.seq < b.seq
 }
 
 type aatMapBuilder struct {
@@ -139,7 +140,7 @@ func (mb *aatMapBuilder) compileMorxFlag(chain font.MorxChain) GlyphMask {
 	retry:
 		// Check whether this type_/setting pair was requested in the map, and if so, apply its flags.
 		// (The search here only looks at the type_ and setting fields of feature_info_t.)
-		info := aatFeatureInfo{type_, setting, false}
+		info := aatFeatureInfo{type_: type_, setting: setting}
 		if mb.hasFeature(info) {
 			flags &= feature.DisableFlags
 			flags |= feature.EnableFlags
@@ -171,6 +172,7 @@ func (mb *aatMapBuilder) addFeature(feature Feature) {
 				type_:       aatLayoutFeatureTypeCharacterAlternatives,
 				setting:     aatLayoutFeatureSelector(feature.Value),
 				isExclusive: true,
+				seq:         len(mb.features) + 1,
 			},
 			start: feature.Start,
 			end:   feature.End,
@@ -208,6 +210,7 @@ func (mb *aatMapBuilder) addFeature(feature Feature) {
 		info.setting = mapping.selectorToDisable
 	}
 	info.isExclusive = featureName.IsExclusive()
+	info.seq = len(mb.features) + 1
 	mb.features = append(mb.features, aatFeatureRange{
 		info:  info,
 		start: feature.Start,
